@@ -52,6 +52,7 @@ type CScenario struct {
 	Override   bool        `json:"override,omitempty"`
 	CustomNF   bool        `json:"custom_nf,omitempty"`
 	SharedResp bool        `json:"shared_resp,omitempty"`
+	Literals   []string    `json:"literals,omitempty"`
 }
 
 type CRecord struct {
